@@ -17,6 +17,7 @@ package main
 
 import (
 	"fmt"
+	"go/constant"
 	"os"
 	"go/token"
 	"go/types"
@@ -32,8 +33,12 @@ const (
 	regGlobal  = -1
 	regUnknown = -2
 	regSite    = -3
-	maxPathLen = 5
 )
+
+// maxPathLen bounds access paths; entry points in the presentation packages
+// (html, q, cmd) use short paths: their frames are about regions and fields,
+// not about freshness of deep structures.
+var maxPathLen = 5
 
 // ParPath names objects relative to a parameter: Path "" is the parameter's
 // own object, "f/g" the object reached by loading field f then g, "*" any
@@ -85,7 +90,19 @@ func (o Org) empty() bool { return len(o.Sites) == 0 && len(o.Par) == 0 && !o.Gl
 
 func (o Org) nonFresh() Org { return Org{Par: o.Par, Global: o.Global, Unknown: o.Unknown} }
 
-func siteOrg(v ssa.Value) Org { return Org{Sites: map[ssa.Value]bool{v: true}} }
+// coarseFresh, when set, is the single abstract object standing for everything
+// allocated during the call (used for entry points outside the root package,
+// whose frames are about regions and fields, not about deep freshness).
+var coarseFresh ssa.Value
+
+var freshSentinel ssa.Value = ssa.NewConst(constant.MakeInt64(0), types.Typ[types.Int])
+
+func siteOrg(v ssa.Value) Org {
+	if coarseFresh != nil {
+		return Org{Sites: map[ssa.Value]bool{coarseFresh: true}}
+	}
+	return Org{Sites: map[ssa.Value]bool{v: true}}
+}
 
 func parOrg(i int, path string) Org { return Org{Par: map[ParPath]bool{{i, path}: true}} }
 
@@ -144,13 +161,13 @@ const maxParEntries = 16
 func widenPar(m map[ParPath]bool) map[ParPath]bool {
 	count := map[int]int{}
 	for p := range m {
-		if p.Path != "" {
+		if p.Path != "" && p.Idx >= 0 {
 			count[p.Idx]++
 		}
 	}
 	out := map[ParPath]bool{}
 	for p := range m {
-		if p.Path != "" && count[p.Idx] > maxParEntries/2 {
+		if p.Idx >= 0 && p.Path != "" && count[p.Idx] > maxParEntries/2 {
 			out[ParPath{p.Idx, "*"}] = true
 		} else {
 			out[p] = true
@@ -286,6 +303,8 @@ type Summary struct {
 	Spawns     bool
 	Unknowns   map[string]*Witness // unresolved calls
 	done       bool
+	version    int
+	pathCount  map[fieldRegion]int
 }
 
 func newSummary(fn *ssa.Function) *Summary {
@@ -308,7 +327,13 @@ type FrameAnalysis struct {
 	changed     bool
 	assumptions map[string]bool
 	visCache    map[*types.Package]map[*types.Package]bool
-	stable      map[ctxKey]bool // summaries that are final (a whole pass left them unchanged)
+	rootVis     map[*types.Package]bool
+	rootTag     string
+	deps        map[ctxKey]map[ctxKey]bool // callee -> callers that used its summary
+	dirty       map[ctxKey]bool
+	ctxOf       map[ctxKey]funcCtx
+	cur         []ctxKey // stack of summaries being computed
+	stable      map[ctxKey]bool
 	visited     map[ctxKey]bool
 }
 
@@ -342,37 +367,63 @@ func (fa *FrameAnalysis) Summarise(fn *ssa.Function, ctx funcCtx) *Summary {
 	if fa.stable == nil {
 		fa.stable = map[ctxKey]bool{}
 	}
-	for iter := 0; iter < 24; iter++ {
-		fa.changed = false
-		fa.visited = map[ctxKey]bool{}
-		s := fa.summ(fn, ctx)
-		if !fa.changed {
-			for k := range fa.visited {
-				fa.stable[k] = true
-			}
-			return s
-		}
-		for k, x := range fa.sums {
-			if !fa.stable[k] {
-				x.done = false
-			}
+	if fa.deps == nil {
+		fa.deps = map[ctxKey]map[ctxKey]bool{}
+		fa.ctxOf = map[ctxKey]funcCtx{}
+	}
+	// dynamic dispatch is resolved among the packages the analysed entry point can name
+	fa.rootVis = fa.visiblePkgs(fn)
+	fa.rootTag = ""
+	maxPathLen = 5
+	coarseFresh = nil
+	if p := pkgOfFunc(fn); p != nil {
+		fa.rootTag = "root=" + p.Path() + "|"
+		if p.Path() != repoModule {
+			maxPathLen = 2
+			coarseFresh = freshSentinel
+			fa.assumptions["entry points outside the root package are analysed with one abstract object for everything allocated during the call and access paths of length <= 2 (coarser, still a may-analysis)"] = true
 		}
 	}
-	return fa.summ(fn, ctx)
+	root := fa.summ(fn, ctx)
+	// chaotic iteration: recompute a summary when one of its callees' summaries grew
+	for rounds := 0; len(fa.dirty) > 0 && rounds < 200000; rounds++ {
+		var k ctxKey
+		for kk := range fa.dirty {
+			k = kk
+			break
+		}
+		delete(fa.dirty, k)
+		s := fa.sums[k]
+		if s == nil || len(k.fn.Blocks) == 0 || !inRepo(k.fn) {
+			continue
+		}
+		s.done = false
+		fa.summ(k.fn, fa.ctxOf[k])
+	}
+	return root
 }
 
 func (fa *FrameAnalysis) summ(fn *ssa.Function, ctx funcCtx) *Summary {
-	k := ctxKey{fn, ctx.key()}
+	k := ctxKey{fn, fa.rootTag + ctx.key()}
 	s := fa.sums[k]
 	if s == nil {
 		s = newSummary(fn)
 		fa.sums[k] = s
 	}
-	if s.done || fa.active[k] || fa.stable[k] {
-		return s
+	// the summary being computed depends on this one
+	if n := len(fa.cur); n > 0 {
+		d := fa.deps[k]
+		if d == nil {
+			d = map[ctxKey]bool{}
+			fa.deps[k] = d
+		}
+		d[fa.cur[n-1]] = true
 	}
-	if fa.visited != nil {
-		fa.visited[k] = true
+	if _, ok := fa.ctxOf[k]; !ok {
+		fa.ctxOf[k] = ctx
+	}
+	if s.done || fa.active[k] {
+		return s
 	}
 	if len(fn.Blocks) == 0 || !inRepo(fn) {
 		fa.externalSummary(fn, s)
@@ -387,9 +438,26 @@ func (fa *FrameAnalysis) summ(fn *ssa.Function, ctx funcCtx) *Summary {
 		return s
 	}
 	fa.active[k] = true
+	fa.cur = append(fa.cur, k)
+	before := s.version
 	fa.analyse(fn, ctx, s)
+	fa.cur = fa.cur[:len(fa.cur)-1]
 	delete(fa.active, k)
 	s.done = true
+	if s.version != before {
+		if fa.dirty == nil {
+			fa.dirty = map[ctxKey]bool{}
+		}
+		for caller := range fa.deps[k] {
+			if caller != k {
+				fa.dirty[caller] = true
+			}
+		}
+		// a recursive function must see its own grown summary
+		if fa.deps[k][k] {
+			fa.dirty[k] = true
+		}
+	}
 	return s
 }
 
@@ -405,6 +473,7 @@ type fstate struct {
 	live    map[*ssa.BasicBlock]bool
 	locked  map[ssa.Instruction]bool
 	escapeRoots []Org // fresh objects stored into pre-existing ones (they outlive the call)
+	keepWitnesses bool // prefer the smallest witness (deterministic names); off in coarse mode
 }
 
 func isRefType(t types.Type) bool {
@@ -438,7 +507,8 @@ func (st *fstate) org(v ssa.Value) Org {
 	case *ssa.Const, *ssa.Function, *ssa.Builtin:
 		return Org{}
 	case *ssa.Global:
-		return Org{Global: true}
+		g := v.(*ssa.Global)
+		return Org{Global: true, Par: map[ParPath]bool{{regGlobal, g.Pkg.Pkg.Name() + "." + g.Name()}: true}}
 	}
 	return st.orgs[v]
 }
@@ -506,7 +576,18 @@ func (st *fstate) witness(pos token.Pos, sub *Witness) *Witness {
 
 func objsOf(o Org) []Obj {
 	var rs []Obj
+	namedGlobal := false
 	for p := range o.Par {
+		if p.Idx == regGlobal {
+			// keep the variable's name, drop what is below it
+			name := p.Path
+			if i := strings.Index(name, "/"); i >= 0 {
+				name = name[:i]
+			}
+			rs = append(rs, Obj{Region: regGlobal, Path: name})
+			namedGlobal = true
+			continue
+		}
 		rs = append(rs, Obj{Region: p.Idx, Path: p.Path})
 	}
 	sort.Slice(rs, func(i, j int) bool {
@@ -515,42 +596,69 @@ func objsOf(o Org) []Obj {
 		}
 		return rs[i].Path < rs[j].Path
 	})
-	if o.Global {
+	if o.Global && !namedGlobal {
 		rs = append(rs, Obj{Region: regGlobal})
 	}
 	if o.Unknown {
 		rs = append(rs, Obj{Region: regUnknown})
 	}
-	return rs
+	// dedupe (several paths below one global collapse to its name)
+	out := rs[:0]
+	seen := map[Obj]bool{}
+	for _, r := range rs {
+		if !seen[r] {
+			seen[r] = true
+			out = append(out, r)
+		}
+	}
+	return out
+}
+
+type fieldRegion struct {
+	field  string
+	region int
 }
 
 func (st *fstate) addWrite(field string, base Org, w *Witness, locked bool) {
+	st.addWriteLazy(field, base, func() *Witness { return w }, locked)
+}
+
+func (st *fstate) addWriteLazy(field string, base Org, mkw func() *Witness, locked bool) {
+	var w *Witness
+	get := func() *Witness {
+		if w == nil {
+			w = mkw()
+		}
+		return w
+	}
+	if st.sum.pathCount == nil {
+		st.sum.pathCount = map[fieldRegion]int{}
+	}
 	for _, ob := range objsOf(base) {
 		k := WriteKey{field, ob}
-		if _, have := st.sum.Writes[k]; !have && ob.Region >= 0 && ob.Path != "" && ob.Path != "*" {
+		_, have := st.sum.Writes[k]
+		if !have && ob.Region >= 0 && ob.Path != "" && ob.Path != "*" {
 			// bound the number of distinct paths per (field, parameter)
-			n := 0
-			for ek := range st.sum.Writes {
-				if ek.Field == field && ek.Obj.Region == ob.Region {
-					n++
-				}
-			}
-			if n >= 6 {
+			if st.sum.pathCount[fieldRegion{field, ob.Region}] >= 6 {
 				k = WriteKey{field, Obj{Region: ob.Region, Path: "*"}}
+				_, have = st.sum.Writes[k]
 			}
 		}
-		if old, ok := st.sum.Writes[k]; !ok {
-			st.sum.Writes[k] = w
+		if !have {
+			st.sum.Writes[k] = get()
+			st.sum.pathCount[fieldRegion{field, k.Obj.Region}]++
+			st.sum.version++
 			st.fa.changed = true
-		} else if witnessLess(w, old) {
-			st.sum.Writes[k] = w
+		} else if st.keepWitnesses {
+			if old := st.sum.Writes[k]; witnessLess(get(), old) {
+				st.sum.Writes[k] = get()
+			}
 		}
 		if !locked {
-			if old, ok := st.sum.Unsync[k]; !ok {
-				st.sum.Unsync[k] = w
+			if _, ok := st.sum.Unsync[k]; !ok {
+				st.sum.Unsync[k] = get()
+				st.sum.version++
 				st.fa.changed = true
-			} else if witnessLess(w, old) {
-				st.sum.Unsync[k] = w
 			}
 		}
 	}
@@ -561,6 +669,11 @@ func (st *fstate) addWrite(field string, base Org, w *Witness, locked bool) {
 func (st *fstate) reach(o Org) Org {
 	r := Org{Global: o.Global, Unknown: o.Unknown, Par: map[ParPath]bool{}, Sites: map[ssa.Value]bool{}}
 	addPar := func(p ParPath) {
+		if p.Idx == regGlobal {
+			r.Par[p] = true
+			r.Global = true
+			return
+		}
 		if p.Path != "" && r.Par[ParPath{p.Idx, "*"}] {
 			return
 		}
@@ -656,8 +769,14 @@ func (st *fstate) store(field string, base Org, val Org, pos token.Pos, sub *Wit
 	}
 	nf := base.nonFresh()
 	if !nf.empty() {
-		w := st.witness(pos, sub)
-		st.addWrite(field, nf, w, locked)
+		var w *Witness
+		mkw := func() *Witness {
+			if w == nil {
+				w = st.witness(pos, sub)
+			}
+			return w
+		}
+		st.addWriteLazy(field, nf, mkw, locked)
 		if len(val.Sites) > 0 {
 			st.escapeRoots = append(st.escapeRoots, Org{Sites: val.Sites})
 		}
@@ -707,10 +826,12 @@ func (st *fstate) store(field string, base Org, val Org, pos token.Pos, sub *Wit
 					st.sum.Links[k] = cur
 				}
 				if cur.join(from) {
-					st.fa.changed = true
+					st.sum.version++; st.fa.changed = true
 				}
-				if old, ok := st.sum.LinkWit[k]; !ok || witnessLess(w, old) {
-					st.sum.LinkWit[k] = w
+				if old, ok := st.sum.LinkWit[k]; !ok {
+					st.sum.LinkWit[k] = mkw()
+				} else if st.keepWitnesses && witnessLess(mkw(), old) {
+					st.sum.LinkWit[k] = mkw()
 				}
 			}
 		}
@@ -719,7 +840,7 @@ func (st *fstate) store(field string, base Org, val Org, pos token.Pos, sub *Wit
 }
 
 func (fa *FrameAnalysis) analyse(fn *ssa.Function, ctx funcCtx, sum *Summary) {
-	st := &fstate{fa: fa, fn: fn, ctx: ctx, sum: sum, orgs: map[ssa.Value]Org{}, content: map[ssa.Value]map[string]Org{}}
+	st := &fstate{fa: fa, fn: fn, ctx: ctx, sum: sum, orgs: map[ssa.Value]Org{}, content: map[ssa.Value]map[string]Org{}, keepWitnesses: true}
 	for i, p := range fn.Params {
 		if isRefType(p.Type()) {
 			st.orgs[p] = parOrg(i, "")
@@ -777,7 +898,10 @@ func (fa *FrameAnalysis) analyse(fn *ssa.Function, ctx funcCtx, sum *Summary) {
 				}
 				ro := st.org(r)
 				if sum.Ret.join(sumOf(ro)) {
-					fa.changed = true
+					sum.version++
+					sum.version++
+				sum.version++
+			fa.changed = true
 				}
 				roots = append(roots, ro)
 			}
@@ -801,6 +925,7 @@ func (fa *FrameAnalysis) analyse(fn *ssa.Function, ctx funcCtx, sum *Summary) {
 		if m == nil {
 			m = map[string]*SumOrg{}
 			sum.SiteContent[s] = m
+			sum.version++
 			fa.changed = true
 		}
 		for f, c := range st.content[s] {
@@ -810,7 +935,9 @@ func (fa *FrameAnalysis) analyse(fn *ssa.Function, ctx funcCtx, sum *Summary) {
 				m[f] = cur
 			}
 			if cur.join(sumOf(c)) {
-				fa.changed = true
+				sum.version++
+				sum.version++
+			fa.changed = true
 			}
 			for s2 := range c.Sites {
 				if !seen[s2] {
@@ -1100,7 +1227,11 @@ func (st *fstate) transfer(in ssa.Instruction) bool {
 		if isRefType(x.Val.Type()) {
 			v = st.org(x.Val)
 		}
-		ch := st.store(fieldKeyOfAddr(x.Addr), st.org(x.Addr), v, x.Pos(), nil, st.locked[in])
+		syncd := st.locked[in] || receivedObject(x.Addr)
+		if receivedObject(x.Addr) {
+			st.fa.assumptions["an object received from a channel is owned by the receiving goroutine (writes to its own fields are not shared writes)"] = true
+		}
+		ch := st.store(fieldKeyOfAddr(x.Addr), st.org(x.Addr), v, x.Pos(), nil, syncd)
 		// copying a whole struct copies every reference it holds, field by field
 		if stT, ok := x.Val.Type().Underlying().(*types.Struct); ok && isRefType(x.Val.Type()) {
 			for i := 0; i < stT.NumFields(); i++ {
@@ -1137,7 +1268,7 @@ func (st *fstate) transfer(in ssa.Instruction) bool {
 	case *ssa.Go:
 		if !st.sum.Spawns {
 			st.sum.Spawns = true
-			st.fa.changed = true
+			st.sum.version++; st.fa.changed = true
 		}
 		return st.call(x, nil, true)
 	case *ssa.Defer:
@@ -1146,6 +1277,45 @@ func (st *fstate) transfer(in ssa.Instruction) bool {
 		if isRefType(x.Type()) {
 			return st.setOrg(x, Org{Unknown: true})
 		}
+	}
+	return false
+}
+
+// receivedObject: addr is a field of an object obtained directly from a channel receive.
+func receivedObject(addr ssa.Value) bool {
+	for i := 0; i < 4; i++ {
+		fa, ok := addr.(*ssa.FieldAddr)
+		if !ok {
+			return false
+		}
+		switch x := fa.X.(type) {
+		case *ssa.UnOp:
+			if x.Op == token.ARROW {
+				return true
+			}
+		case *ssa.Extract:
+			if u, ok := x.Tuple.(*ssa.UnOp); ok && u.Op == token.ARROW {
+				return true
+			}
+		case *ssa.Phi:
+			all := len(x.Edges) > 0
+			for _, e := range x.Edges {
+				ok2 := false
+				if u, ok := e.(*ssa.UnOp); ok && u.Op == token.ARROW {
+					ok2 = true
+				}
+				if ex, ok := e.(*ssa.Extract); ok {
+					if u, ok := ex.Tuple.(*ssa.UnOp); ok && u.Op == token.ARROW {
+						ok2 = true
+					}
+				}
+				if !ok2 {
+					all = false
+				}
+			}
+			return all
+		}
+		addr = fa.X
 	}
 	return false
 }
@@ -1191,7 +1361,7 @@ func (st *fstate) call(in ssa.CallInstruction, res ssa.Value, spawned bool) bool
 		k := "unresolved call in " + funcKey(st.fn) + " at " + st.fa.ld.posString(in.Pos())
 		if _, ok := st.sum.Unknowns[k]; !ok {
 			st.sum.Unknowns[k] = st.witness(in.Pos(), nil)
-			st.fa.changed = true
+			st.sum.version++; st.fa.changed = true
 		}
 		for _, a := range cm.Args {
 			if isRefType(a.Type()) {
@@ -1252,7 +1422,7 @@ func (fa *FrameAnalysis) visiblePkgs(fn *ssa.Function) map[*types.Package]bool {
 	}
 	walk(root)
 	fa.visCache[root] = m
-	fa.assumptions["dynamic calls (interfaces, function values) are resolved by CHA within the caller's package and its imports"] = true
+	fa.assumptions["dynamic calls (interfaces, function values) are resolved by CHA within the packages visible from the analysed entry point or from the calling function (package + transitive imports)"] = true
 	return m
 }
 
@@ -1286,7 +1456,7 @@ func (st *fstate) chaTargets(in ssa.CallInstruction, args []ssa.Value) []target 
 		for _, e := range node.Out {
 			if e.Site == in && e.Callee.Func != nil {
 				if vis != nil && inRepo(e.Callee.Func) {
-					if p := pkgOfFunc(e.Callee.Func); p != nil && !vis[p] {
+					if p := pkgOfFunc(e.Callee.Func); p != nil && !vis[p] && !st.fa.rootVis[p] {
 						continue
 					}
 				}
@@ -1517,6 +1687,9 @@ func (st *fstate) applyCallee(in ssa.CallInstruction, res ssa.Value, callee *ssa
 	resolveRaw := func(o Obj) Org {
 		switch o.Region {
 		case regGlobal:
+			if o.Path != "" {
+				return Org{Global: true, Par: map[ParPath]bool{{regGlobal, o.Path}: true}}
+			}
 			return Org{Global: true}
 		case regUnknown:
 			return Org{Unknown: true}
@@ -1547,6 +1720,10 @@ func (st *fstate) applyCallee(in ssa.CallInstruction, res ssa.Value, callee *ssa
 	resolveSum := func(s SumOrg, freshSite ssa.Value) Org {
 		o := Org{Global: s.Global, Unknown: s.Unknown}
 		for p := range s.Par {
+			if p.Idx == regGlobal {
+				o, _ = joinOrg(o, Org{Global: true, Par: map[ParPath]bool{p: true}})
+				continue
+			}
 			o, _ = joinOrg(o, resolve(Obj{Region: p.Idx, Path: p.Path}))
 		}
 		if len(s.Sites) > 0 {
@@ -1575,10 +1752,10 @@ func (st *fstate) applyCallee(in ssa.CallInstruction, res ssa.Value, callee *ssa
 			fmt.Println("  APPLY write", field, k.Obj, "->", sumOf(base).String(), "callee", callee.String())
 		}
 		if !base.empty() {
-			wk := st.witness(in.Pos(), w)
 			_, unsync := cs.Unsync[k]
 			before := len(st.sum.Writes) + len(st.sum.Unsync)
-			st.addWrite(field, base, wk, locked || !unsync)
+			ww := w
+			st.addWriteLazy(field, base, func() *Witness { return st.witness(in.Pos(), ww) }, locked || !unsync)
 			if len(st.sum.Writes)+len(st.sum.Unsync) != before {
 				ch = true
 			}
@@ -1599,12 +1776,12 @@ func (st *fstate) applyCallee(in ssa.CallInstruction, res ssa.Value, callee *ssa
 	for k, w := range cs.Unknowns {
 		if _, ok := st.sum.Unknowns[k]; !ok {
 			st.sum.Unknowns[k] = st.witness(in.Pos(), w)
-			st.fa.changed = true
+			st.sum.version++; st.fa.changed = true
 		}
 	}
 	if cs.Spawns && !st.sum.Spawns {
 		st.sum.Spawns = true
-		st.fa.changed = true
+		st.sum.version++; st.fa.changed = true
 	}
 	// objects created by the callee that outlive it: import their content
 	for site, m := range cs.SiteContent {
